@@ -370,6 +370,7 @@ func init() {
 	// ---- crypto/rand ----
 	s["crypto/rand.Read"] = func(ex *Exec, fr *Frame, st *State, c *callCtx) Val {
 		b := c.args[0]
+		ex.cryptoEvent(fr, st, "rand.Read", c)
 		ex.havocSlice(st, b)
 		return tup(intVal(b.L[2]), ex.maybeErr(st, "rand"))
 	}
@@ -450,6 +451,16 @@ func init() {
 		tag := fmt.Sprint(ex.typeTag("T:*chacha20poly1305.chacha20poly1305"))
 		return tup(Val{T: c.results().At(0).Type(), L: []string{ite(okc, tag, "0"), ite(okc, ref, "0")}},
 			Val{T: errType(), L: []string{ite(okc, "0", e.L[0]), ite(okc, "0", e.L[1])}})
+	}
+
+	// slices.BinarySearchFunc(s, target, cmp): position in 0..len(s); found implies position < len(s).
+	// The comparison function is assumed to be free of side effects (every comparator in the module is).
+	s["slices.BinarySearchFunc"] = func(ex *Exec, fr *Frame, st *State, c *callCtx) Val {
+		n := c.args[0].L[2]
+		i := ex.fresh("bsearch.i", bv64)
+		found := ex.fresh("bsearch.found", sBool)
+		ex.assume("true", and(app("bvsle", bvLit(0, 64), i), app("bvsle", i, n), implies(found, app("bvslt", i, n))))
+		return tup(intVal(i), boolV(found))
 	}
 
 	// ---- slices / strings helpers (deterministic functions of their arguments) ----
